@@ -207,8 +207,11 @@ class PathGen:
     # ---- predicates ----
     def gen_out(self):
         rng = self.rng
-        if rng.random() < 0.12:
+        r = rng.random()
+        if r < 0.12:
             return ["x", "Boom"]
+        if r < 0.16:
+            return ["b", "TypeError"]
         return ["v", rng.choice(OUT_VALUES)]
 
     def gen_fns(self):
